@@ -111,7 +111,7 @@ func init() {
 				},
 			},
 			{
-				Name: "random", N: q(300000, 20000000),
+				Name: "random", N: q(300000, 300000000),
 				Run: func(c *fw.Case) {
 					var p idParts
 					for i := range p {
